@@ -90,7 +90,7 @@ func init() {
 	props["C11"] = propCfg{Engine: "pipesim", Level: "exploration", QuickRandom: 150000, QuickWall: 20, ThoroughRand: 40000000, ThoroughWall: 540,
 		Rule: "one case = one simulated run of Emit or Unfold on the virtual clock. Enumerated: {Emit,Unfold} x capacity {0,1,2,5} x consumer takes 0..4 values (thorough 0..7) x 6 base schedules x 3 consumer paces (always ready, fixed slower pace, burst after a long stall), cancel swept over every step; then seeded random plans: function family, frequency {1ms,10ms,1s}, Try-mode failing index sets, consumer paces, cancel by step / virtual time / after the consumer left. Oracles: k-th value exact (online), calls at least one frequency apart, k-th value not before k ticks, always-ready consumer receives exactly one value per tick, close and exit after cancel. " + distinctRule}
 	props["C12"] = propCfg{Engine: "pipesim", Level: "exploration", QuickRandom: 150000, QuickWall: 20, ThoroughRand: 40000000, ThoroughWall: 540,
-		Rule: "one case = one simulated run of Join with 0..5 inputs, one producer task per input. Enumerated: 11 input shapes (thorough 15) x capacity {0,1,3} x 6 base schedules x {plain, one input closing long after the others, slow consumer}; then seeded random plans (lengths <= 6, thorough <= 30; independent paces; one deliberately slow input; an input that never closes). Oracles: per-input order online, completeness, close observed strictly after every producer's close and after every element, close does happen, no close when an input stays open. " + distinctRule}
+		Rule: "one case = one simulated run of Join with 0..5 inputs, one producer task per input (random part: up to 17 inputs). Enumerated: 14 input shapes incl. 8, 9 and 17 inputs (thorough 18) x capacity {0,1,3} x 6 base schedules x {plain, one input closing long after the others, slow consumer}; then seeded random plans (lengths <= 6, thorough <= 30; independent paces; one deliberately slow input; an input that never closes). Oracles: per-input order online, completeness, close observed strictly after every producer's close and after every element, close does happen, no close when an input stays open. " + distinctRule}
 	props["C13"] = propCfg{Engine: "pipesim", Level: "exploration", QuickRandom: 150000, QuickWall: 20, ThoroughRand: 40000000, ThoroughWall: 540,
 		Rule: "one case = one simulated run of Throttling on the virtual clock. Enumerated: ops {1,2} (thorough 1..3) x c {0,1,3} x 4 lengths x 6 base schedules x {saturated, consumer late by 2.5 intervals, input late by 2.5 intervals, slow consumer}; then seeded random plans: ops {1,2,3,5}, interval {10ms,100ms,1s}, idle-then-burst on either side, idle in the middle, random paces, cancel. Oracles: order/content online, window bound 2*ops+1+c over every window of deliveries before cancel, interval membership under the saturated schedule, closure. " + distinctRule}
 	props["C09"] = propCfg{Engine: "pipesim", Level: "exploration", QuickRandom: 150000, QuickWall: 20, ThoroughRand: 40000000, ThoroughWall: 540,
@@ -366,6 +366,10 @@ func runWorker(st *staged, job driver.WorkerIn) (*driver.WorkerOut, string, int)
 
 func fanout(st *staged, prop string, seed uint64, thorough bool, workers, random, wall int) []*driver.WorkerOut {
 	outs := make([]*driver.WorkerOut, workers)
+	var knownSigs []string
+	for _, k := range loadKnown().Findings {
+		knownSigs = append(knownSigs, k.Signature)
+	}
 	var wg sync.WaitGroup
 	var mu sync.Mutex
 	failed := ""
@@ -373,7 +377,7 @@ func fanout(st *staged, prop string, seed uint64, thorough bool, workers, random
 		wg.Add(1)
 		go func(w int) {
 			defer wg.Done()
-			job := driver.WorkerIn{Prop: prop, Mode: "run", Seed: seed, Thorough: thorough, Worker: w, Workers: workers, Random: random, RawLib: rawMode,
+			job := driver.WorkerIn{Prop: prop, Mode: "run", Seed: seed, Thorough: thorough, Worker: w, Workers: workers, Random: random, RawLib: rawMode, Known: knownSigs,
 				WallLimit: wall, ReplayDir: filepath.Join(st.dir, "replays"), Out: filepath.Join(st.dir, fmt.Sprintf("out-%d.json", w))}
 			wo, outp, code := runWorker(st, job)
 			mu.Lock()
@@ -481,6 +485,7 @@ func report(st *staged, prop string, cfg propCfg, tier string, seed uint64, outs
 	var samples []driver.Sample
 	var workerWall float64
 	partitioned := false
+	stoppedEarly := false
 	type foundAgg struct {
 		f     *driver.Found
 		count int
@@ -489,6 +494,7 @@ func report(st *staged, prop string, cfg propCfg, tier string, seed uint64, outs
 	var sigs []string
 	for _, o := range outs {
 		runs += o.Runs
+		stoppedEarly = stoppedEarly || o.StoppedEarly
 		enumRuns += o.EnumRuns
 		enumBases += o.EnumBases
 		if o.EnumTotal >= 0 {
@@ -628,7 +634,7 @@ func report(st *staged, prop string, cfg propCfg, tier string, seed uint64, outs
 		"rule":                        cfg.Rule,
 		"samples":                     sampleAny,
 		"exhaustive":                  false,
-		"enumerated_subspace":         map[string]any{"base_plans": enumTotal, "base_plans_run": enumBases, "runs_including_fault_sweeps": enumRuns, "complete": enumBases == enumTotal},
+		"enumerated_subspace":         map[string]any{"base_plans": enumTotal, "base_plans_run": enumBases, "runs_including_fault_sweeps": enumRuns, "complete": enumBases == enumTotal && !stoppedEarly},
 		"random_runs":                 randomRuns,
 		"runs_per_hour":               int64(runsPerHour),
 		"seeds":                       []uint64{seed},
@@ -680,6 +686,9 @@ func report(st *staged, prop string, cfg propCfg, tier string, seed uint64, outs
 	}
 	fmt.Printf("%s %s: %d runs (%d enumerated incl. sweeps over %d/%d base plans, %d random), %d steps, %.1fs virtual, %d distinct schedules, %d non-trivial, faults=%v, wall %.1fs\n",
 		prop, tier, runs, enumRuns, enumBases, enumTotal, randomRuns, steps, float64(vns)/1e9, len(sched), len(nont), faults, wallS)
+	if stoppedEarly {
+		fmt.Println("note: workers stopped early after enough violating runs; the counts above cover the runs executed until then")
+	}
 	if exit == 0 {
 		fmt.Printf("OK property=%s held on everything explored\n", prop)
 	}
